@@ -68,8 +68,15 @@ let run_c01 toks obs =
                | None -> None)
           | _ -> None) (split_on '|' (kv "calltags" k))
       end in
+    (* every call of a scenario has its own argument (nonce = call id): two call frames carrying the same argument means one
+       of them carries another call's *)
+    let dup_arg =
+      (let ns = List.filter_map (function AWrite fi when (fi.fi_kind = KCall || fi.fi_kind = KCallC) && ZZ.geq (Values.z_of_coq fi.fi_nonce) ZZ.zero -> Some (ZZ.to_string (Values.z_of_coq fi.fi_nonce)) | _ -> None) tr in
+       List.length (List.sort_uniq compare ns) <> List.length ns) in
     if tagbad <> [] then
       Printf.sprintf "PROPFAIL %s sig=wrong-argument-or-tags%s %s" id (fam k) (List.hd tagbad)
+    else if dup_arg then
+      Printf.sprintf "PROPFAIL %s sig=wrong-argument-or-tags%s two call frames on the wire carry the same argument although every call was given its own" id (fam k)
     else
     if not (c01_no_crosstalk tr) then
       Printf.sprintf "PROPFAIL %s sig=crosstalk%s a call returned a result that the peer did not send for that call's seqno" id (fam k)
